@@ -64,7 +64,7 @@ Theorem c10_retries_refuted_reservation_dropped : ~ c10_retries_balanced_stateme
 Proof. exact refuted_keep_retry. Qed.
 
 (* resource.Increase / Decrease count whatever the limit is, max == 0 (unlimited) included - read from the source on this run
-   (pkg/upstream/cluster/resource_manager.go); CanCreate admits everything while max == 0 *)
+   (pkg/upstream/cluster/resource_manager.go); CanCreate accepts everything while max == 0 *)
 Theorem c10_resource_counts_also_when_unlimited : res_counts_unlimited proxy_src = true.
 Proof. exact (eq_refl true). Qed.
 (* the code in the tree (switches read from the source on this run): for the family - breaker limits 0 (unlimited), 1, 2 - and every
@@ -93,7 +93,7 @@ Example c10_timer_without_reset_leaks :
 Proof. exact witness_timer_no_reset. Qed.
 
 (* ---- thresholds: EVERY configuration and state ----
-   a retry is admitted only while the shared counter is below max_retries (or negative, as CanCreate has it), and admission
+   a retry is accepted only while the shared counter is below max_retries (or negative, as CanCreate has it), and admission
    raises it by exactly one: with max = m > 0 and a non-negative counter, the m-th simultaneous admission succeeds and the
    (m+1)-th is refused *)
 Theorem c10_threshold : forall src c code why s n,
